@@ -345,7 +345,7 @@ impl Gen {
         let has1 = w.map(1).is_some();
         let weights: &[(u32, u8)] = match self.slice {
             Slice::Entry => &[(10, 0), (5, 1), (5, 3), (40, 6), (3, 7), (2, 9), (2, 10), (3, 11), (2, 12)],
-            Slice::Iter => &[(12, 0), (3, 1), (6, 3), (3, 6), (14, 7), (14, 8), (6, 13), (14, 11), (6, 12), (3, 9), (2, 10), (2, 16)],
+            Slice::Iter => &[(12, 0), (3, 1), (6, 3), (3, 6), (14, 7), (14, 8), (6, 13), (14, 11), (6, 12), (3, 9), (2, 10), (4, 16), (5, 14), (2, 18)],
             Slice::Clone => &[(12, 0), (4, 1), (6, 3), (4, 6), (4, 7), (16, 14), (12, 15), (8, 17), (10, 18), (3, 9), (2, 10)],
             _ => &[(14, 0), (6, 1), (8, 2), (10, 3), (4, 4), (5, 5), (12, 6), (5, 7), (5, 8), (3, 9), (3, 10), (5, 11), (3, 12), (1, 13), (3, 14), (2, 15), (1, 16), (2, 17), (3, 18), (2, 19), (2, 20)],
         };
@@ -407,7 +407,14 @@ impl Gen {
                     (1, Op::Clone { src: 0 })
                 }
             }
-            16 => (0, Op::Clear),
+            16 => {
+                if has1 && self.rng.chance(1, 2) {
+                    let l1 = w.map(1).map_or(0, |m| m.len());
+                    (1, Op::IntoIter { take: match self.rng.below(3) { 0 => 0, 1 => usize::MAX, _ => self.rng.below(l1 as u64 + 1) as usize } })
+                } else {
+                    (0, Op::Clear)
+                }
+            }
             17 => {
                 if has1 { (0, Op::Eq { other: 1 }) } else { (1, Op::New { cap: self.rng.below(40) as usize, seed: self.rng.below(1000) }) }
             }
